@@ -103,12 +103,20 @@ class FakeConnection:
 
 class FakePool:
     """stands for ConnectionPool / HTTPProxyConnectionPool: one connection per exchange"""
-    def __init__(self, responses, proxy):
+    def __init__(self, responses, proxy, direct_hosts=(), proxy_auth=None):
         self.responses = list(responses)
         self.proxy = proxy
+        self.direct_hosts = set(direct_hosts)      # hosts the proxy's host filter excludes: reached directly
+        self.proxy_auth = proxy_auth               # --proxy-user / --proxy-password
         self.connections = []
         if proxy:
             self.acquire_proxy = self._acquire_proxy
+            self.add_auth_header = self._add_auth_header
+
+    def _add_auth_header(self, request):
+        # HTTPProxyConnectionPool.add_auth_header: the pool itself puts it on the CONNECT request of a tunnel only
+        if self.proxy_auth:
+            request.fields['Proxy-Authorization'] = self.proxy_auth
 
     def next_response(self):
         return self.responses.pop(0) if self.responses else b''
@@ -121,7 +129,12 @@ class FakePool:
 
     @asyncio.coroutine
     def _acquire_proxy(self, host, port, use_ssl=False, host_key=None, tunnel=True):
-        # HTTPProxyConnectionPool.acquire_proxy: proxied; tunnelled (CONNECT) when asked to
+        # HTTPProxyConnectionPool.acquire_proxy: a host the host filter rejects is reached directly; else proxied, tunnelled
+        # (CONNECT) when asked to
+        if host in self.direct_hosts:
+            c = FakeConnection(self, (host, port, use_ssl), False, False)
+            self.connections.append(c)
+            return c
         c = FakeConnection(self, (host, port, use_ssl), True, bool(tunnel))
         self.connections.append(c)
         return c
@@ -229,7 +242,8 @@ def run_case(case, loop):
     if not out['u0']['relative'] or (out.get('parent') and not out['parent']['relative']):
         return {'skip': 'not a network URL'}
 
-    pool = FakePool([response_bytes(r) for r in case['responses']], case.get('proxy', False))
+    pool = FakePool([response_bytes(r) for r in case['responses']], case.get('proxy', False),
+                    case.get('proxy_direct_hosts') or (), case.get('proxy_auth'))
     stream_factory = functools.partial(Stream, ignore_length=case.get('ignore_length', False),
                                        keep_alive=not case.get('ignore_length', False))
     client = Client(connection_pool=pool, stream_factory=stream_factory)
